@@ -87,9 +87,12 @@ pub enum Fault {
     LinkStalledTcpFlows,
     LinkStalledWhileUdpBinding,
     ServerRestart,
+    // --- volume: hundreds of failures, one after the other (whatever counts, caches or leaks per failure shows only then)
+    SrvManyFailedHandshakes,
+    LocalManyFailedFlows,
 }
 
-pub const ALL_FAULTS: [Fault; 38] = [
+pub const ALL_FAULTS: [Fault; 40] = [
     Fault::SrvConnectClose,
     Fault::SrvSilentHeld,
     Fault::SrvGarbageClose,
@@ -128,6 +131,8 @@ pub const ALL_FAULTS: [Fault; 38] = [
     Fault::LinkStalledTcpFlows,
     Fault::LinkStalledWhileUdpBinding,
     Fault::ServerRestart,
+    Fault::SrvManyFailedHandshakes,
+    Fault::LocalManyFailedFlows,
 ];
 
 impl Fault {
@@ -154,6 +159,7 @@ impl Fault {
             LinkCutMidFlow | LinkResetMidFlow | LinkStalledTcpFlows => e.chopper.is_some(),
             LinkDownWhileUdpBinding | LinkStalledWhileUdpBinding => e.chopper.is_some() && e.d.udp && !ss,
             ServerRestart => true,
+            SrvManyFailedHandshakes | LocalManyFailedFlows => true,
         }
     }
 }
@@ -842,8 +848,129 @@ async fn apply(f: Fault, e: &mut Env, rng: &mut Rng, rep: &mut Report) -> Held {
                 _ => rep.inconclusive("the server could not be restarted on its port"),
             }
         }
+        SrvManyFailedHandshakes => {
+            // 320 handshakes that fail, strictly one after the other (never more than one connection open), in the ways the
+            // listener's transport offers; then the same through the QUIC endpoint
+            let t = e.d.transport;
+            let (tls, ws) = (matches!(t, Transport::Tls | Transport::Wss), matches!(t, Transport::Ws | Transport::Wss));
+            let mut applied = 0u64;
+            async fn drain<S: AsyncReadExt + Unpin>(s: &mut S, ms: u64) {
+                let mut b = [0u8; 512];
+                let t0 = Instant::now();
+                while t0.elapsed() < Duration::from_millis(ms) {
+                    match tokio::time::timeout(Duration::from_millis(ms), s.read(&mut b)).await {
+                        Ok(Ok(n)) if n > 0 => continue,
+                        _ => break,
+                    }
+                }
+            }
+            if e.server_has_tcp() {
+                for k in 0..320usize {
+                    let req: Vec<u8> = match k % 4 {
+                        0 => Vec::new(),
+                        1 => rng.bytes(60),
+                        2 if ws => b"GET /other HTTP/1.1\r\nHost: localhost\r\n\r\n".to_vec(),
+                        3 if ws => b"GET /ws HTTP/1.1\r\nHost: localhost\r\nUpgrade: websocket\r\nConnection: Upgrade\r\nSec-WebSocket-Version: 7\r\n\r\n".to_vec(),
+                        2 => rng.bytes(300),
+                        _ => rng.bytes(16),
+                    };
+                    if tls && k % 4 >= 2 {
+                        if let Some(mut s) = tls_connect(e, sp).await {
+                            let _ = s.write_all(&req).await;
+                            let _ = s.flush().await;
+                            drain(&mut s, 150).await;
+                            applied += 1;
+                        }
+                    } else if let Some(mut s) = connect(sp).await {
+                        if !req.is_empty() {
+                            let _ = s.write_all(&req).await;
+                            drain(&mut s, if ws { 150 } else { 30 }).await;
+                        }
+                        if k % 8 == 7 {
+                            let _ = s.set_linger(Some(Duration::from_secs(0)));
+                        }
+                        applied += 1;
+                    }
+                }
+            }
+            if e.server_has_quic() {
+                if let Some(ep) = quic_endpoint() {
+                    for k in 0..120usize {
+                        let conn = match ep.connect(format!("127.0.0.1:{sp}").parse().unwrap(), "localhost") {
+                            Ok(c) => tokio::time::timeout(Duration::from_secs(5), c).await.ok().and_then(|r| r.ok()),
+                            Err(_) => None,
+                        };
+                        let Some(conn) = conn else { continue };
+                        if k % 3 != 0 {
+                            if let Ok((mut tx, _rx)) = conn.open_bi().await {
+                                let _ = tx.write_all(&rng.bytes([1usize, 40, 300][k % 3])).await;
+                                let _ = tx.finish();
+                                tokio::time::sleep(Duration::from_millis(10)).await;
+                            }
+                        }
+                        conn.close(0u32.into(), b"");
+                        applied += 1;
+                    }
+                    ep.wait_idle().await;
+                }
+            }
+            rep.mon("failed_handshakes_in_a_row_against_the_server", applied);
+            tokio::time::sleep(Duration::from_millis(300)).await;
+        }
+        LocalManyFailedFlows => {
+            // 240 local flows that fail, one after the other; then 200 malformed and 100 undeliverable local datagrams
+            let dead = free_port();
+            let mut applied = 0u64;
+            for k in 0..240usize {
+                match k % 4 {
+                    0 => drop(connect(cp).await),
+                    1 => {
+                        if let Some(mut s) = connect(cp).await {
+                            let _ = s.write_all(&rng.bytes(10)).await;
+                        }
+                    }
+                    2 => {
+                        let kind = [LocalKind::Socks5V4, LocalKind::HttpConnect, LocalKind::Socks5Domain][(k / 4) % 3];
+                        let _ = tokio::time::timeout(Duration::from_secs(6), app_flow_expect_failure(cp, kind, if kind == LocalKind::Socks5V4 { "127.0.0.1" } else { "localhost" }, dead)).await;
+                    }
+                    _ => {
+                        if let Some(mut s) = connect(cp).await {
+                            let _ = s.write_all(b"\x05\x01").await;
+                            let _ = s.shutdown().await;
+                        }
+                    }
+                }
+                applied += 1;
+            }
+            if e.d.udp {
+                if let Ok(s) = UdpSocket::bind("127.0.0.1:0").await {
+                    for k in 0..200usize {
+                        let b: Vec<u8> = match k % 5 {
+                            0 => vec![0, 0, 0, 3, 200, b'a', b'b'],
+                            1 => vec![0, 0, 1, 1, 127, 0, 0, 1, 0, 80, 1, 2, 3],
+                            2 => vec![0, 0, 0, 9, 1, 2, 3, 4, 0, 80],
+                            3 => rng.bytes(1 + k % 40),
+                            _ => vec![0, 0, 0, 1, 127, 0, 0],
+                        };
+                        let _ = s.send_to(&b, ("127.0.0.1", cp)).await;
+                        if k % 20 == 19 {
+                            tokio::time::sleep(Duration::from_millis(5)).await;
+                        }
+                    }
+                    for seq in 0..100u32 {
+                        let p = make_payload(e.nonce, 60004, 0, seq, 100, 0);
+                        let _ = s.send_to(&socks5_udp("127.0.0.1", dead, &p), ("127.0.0.1", cp)).await;
+                        if seq % 10 == 9 {
+                            tokio::time::sleep(Duration::from_millis(10)).await;
+                        }
+                    }
+                    applied += 300;
+                }
+            }
+            rep.mon("failed_local_flows_and_datagrams_in_a_row", applied);
+            tokio::time::sleep(Duration::from_millis(300)).await;
+        }
     }
-    let _ = e.server_has_quic();
     h
 }
 
